@@ -101,8 +101,8 @@ func (l *c18Lis) dialKey() string {
 }
 
 type c18Item struct {
-	ID   string `json:"id"`
-	Lis  int    `json:"listener"`
+	ID  string `json:"id"`
+	Lis int    `json:"listener"`
 	// Kind: http | tcp | sni | grpc-unary | grpc-stream (bidi, the client's sending side stays open) |
 	// grpc-sstream (server-streaming: the client has half-closed after its one request)
 	Kind string `json:"kind"`
@@ -123,7 +123,10 @@ type c18Item struct {
 	Hold bool `json:"keeps_connection_open,omitempty"`
 	// Stall: with Forever: the backend answers at once with more bytes than the network buffers and
 	// the client never reads them (the open work is blocked in a write, not in a read).
-	Stall   bool   `json:"client_stops_reading,omitempty"`
+	Stall bool `json:"client_stops_reading,omitempty"`
+	// Prelude: with Forever, gRPC streams only: the backend sends one message at once and is silent from then on
+	// (a watch: headers and a first message have travelled, the stream stays open).
+	Prelude bool   `json:"first_message_then_silence,omitempty"`
 	ReqLen  int    `json:"request_bytes"`
 	RespLen int    `json:"reply_bytes"`
 	Up      string `json:"upstream,omitempty"` // sni: own upstream
@@ -176,7 +179,6 @@ func (it *c18Item) label() string {
 	}
 	return it.Kind
 }
-
 
 // c18Hosts are the host parts of listener addresses: IP literals of both families (more than one per
 // family, so that two listeners can differ in nothing but the IP, or in nothing but the family), a name
@@ -338,6 +340,9 @@ func c18Gen(g *simcore.Tape, thorough bool) *c18Scenario {
 			if it.Forever && it.Kind != "grpc-unary" && g.Chance(30) {
 				it.Stall = true
 				it.Rounds, it.Dur, it.RespLen = 1, 0, 200000
+			}
+			if it.Forever && !it.Stall && (it.Kind == "grpc-stream" || it.Kind == "grpc-sstream") {
+				it.Prelude = g.Bool()
 			}
 			if it.Kind == "http" && !it.Forever && it.Start+it.Dur < A {
 				it.Hold = g.Bool()
@@ -623,6 +628,11 @@ func (e *c18Env) grpcHandler(_ any, stream grpc.ServerStream) error {
 		}
 	}
 	if it.Forever {
+		if it.Prelude {
+			if err := stream.SendMsg(&wrapperspb.StringValue{Value: string(it.replies[0])}); err != nil {
+				return err
+			}
+		}
 		select {
 		case <-e.stop:
 		case <-stream.Context().Done():
@@ -1470,6 +1480,9 @@ func (e *c18Env) judge() {
 		case it.Forever:
 			r.Nontrivial()
 			r.Probe("open_forever_" + it.label())
+			if it.Prelude {
+				r.Probe("open_forever_after_a_first_message_" + it.label())
+			}
 			if it.Stall {
 				r.Probe("open_forever_blocked_in_write_" + it.label())
 			}
